@@ -440,9 +440,9 @@ class C12(Prop):
             edges = [int(t) for t in o["edges_t"]]
             w = int(o["w_t"])
             obs = [0, w, o["nb"], o["nbuilt"], len(edges)] + edges
-            if (o["nb"] > 20000 and (et == "n64" or getattr(self, "_tier", "quick") == "quick")) or o["nb"] > 80000:
-                # ~70 000 bins (quick tier, binary64) or more than 80 000 (the model's unary bin index makes the evaluation
-                # quadratic): only the decision, the width and the extremes are compared (the grid itself by the oracle)
+            if o["nb"] > 20000:
+                # more than 20 000 bins: the model's unary bin index makes the evaluation quadratic (minutes for ~70 000
+                # bins); only the decision, the width and the extremes are compared (the grid itself by the oracle)
                 cd = Codec(et)
                 vals = [num(et, t) for t in map(str, case.data_m)]
                 imn = min(range(n), key=lambda i: (vals[i], i))
@@ -481,7 +481,7 @@ class C12(Prop):
         else:
             return "false"
         case._w = w
-        if o["tag"] == "OK" and ((o["nb"] > 20000 and (et == "n64" or getattr(self, "_tier", "quick") == "quick")) or o["nb"] > 80000):
+        if o["tag"] == "OK" and o["nb"] > 20000:
             return None
         if o["tag"] == "OK" and len(edges) > 2000:
             ws = sum((i + 1) * e for i, e in enumerate(edges))
